@@ -135,6 +135,7 @@ def check(pid, tier, replay=None):
         if pid == "C16":
             # size-only inputs (1.5 M repeated / 1.2 M nested constructed headers), each decode in a child process
             behs.append(dict(id="C16-deep", mode="deep", type="", params="", seed=0, n=1500000))
+            behs.append(dict(id="C16-trailing", mode="trailing", type="", params="", seed=0))
     else:
         with open(replay) as f:
             behs = [json.load(f)["behaviour"]]
